@@ -66,12 +66,25 @@ VARIABLE vec
 Case(ls, eol, final) ==
   LET f == [lines |-> ls, eol |-> eol, final |-> final] IN
   [text |-> RenderFile(f), lines |-> Len(ls), exp |-> EvalFile(f, Names, Lookup)]
-Init == \E l \in (IF MaxLines = 2 /\ ~FirstAll THEN FewLines ELSE AllLines) : vec = [seed |-> l]
+\* files of three and four lines in which keys are assigned, referenced, assigned again and referenced again
+Lit(c) == [k |-> "lit", c |-> c]
+Ref(n, braced) == [k |-> "var", n |-> n, b |-> braced]
+ChainLines == {Assign(FALSE, "K1", "=", "none", <<Lit("a")>>, FALSE),
+               Assign(FALSE, "K1", "=", "single", <<Lit("b c")>>, FALSE),
+               Assign(FALSE, "U", "=", "none", <<Ref("K1", FALSE)>>, FALSE),
+               Assign(FALSE, "K1", "=", "double", <<Ref("K1", TRUE), Lit("a")>>, FALSE),
+               Assign(TRUE, "U", "=", "double", <<Ref("K1", TRUE), Ref("U", TRUE)>>, FALSE),
+               Assign(FALSE, "B", "=", "none", <<Ref("U", TRUE), Ref("A", TRUE)>>, FALSE)}
+ChainSeed == [k |-> "chains"]
+Init == \/ \E l \in (IF MaxLines = 2 /\ ~FirstAll THEN FewLines ELSE AllLines) : vec = [seed |-> l]
+        \/ vec = [seed |-> ChainSeed]
 IsSeed == "seed" \in DOMAIN vec
-Next == /\ IsSeed
-        /\ \E rest \in (IF MaxLines = 1 THEN {<<>>} ELSE {<<l>> : l \in (IF SecondAll THEN AllLines ELSE FewLines)}) :
-           \E eol \in {"\n", "\r\n"} : \E final \in BOOLEAN :
-              vec' = Case(<<vec.seed>> \o rest, eol, final)
+Next == \/ /\ IsSeed /\ vec.seed = ChainSeed
+           /\ \E n \in 3..4 : \E ls \in [1..n -> ChainLines] : vec' = Case(ls, "\n", TRUE)
+        \/ /\ IsSeed /\ vec.seed # ChainSeed
+           /\ \E rest \in (IF MaxLines = 1 THEN {<<>>} ELSE {<<l>> : l \in (IF SecondAll THEN AllLines ELSE FewLines)}) :
+              \E eol \in {"\n", "\r\n"} : \E final \in BOOLEAN :
+                 vec' = Case(<<vec.seed>> \o rest, eol, final)
 Spec == Init /\ [][Next]_vec
 
 \* sanity laws of the specification itself
